@@ -260,6 +260,13 @@ impl Server {
         Ok(id)
     }
 
+    pub fn request_no_params(&mut self, method: &str) -> Result<i64, LspError> {
+        let id = self.next_id;
+        self.next_id += 1;
+        self.send(&json!({"jsonrpc": "2.0", "id": id, "method": method}))?;
+        Ok(id)
+    }
+
     fn handle(&mut self, m: Value) -> Result<(), LspError> {
         if let Some(method) = m.get("method").and_then(|x| x.as_str()) {
             match method {
@@ -442,9 +449,12 @@ impl Server {
 
     /// shutdown + exit; waits for the process to end
     pub fn shutdown(mut self) -> Result<(), LspError> {
-        let id = self.request("shutdown", Value::Null)?;
-        let _ = self.wait_response(id, Duration::from_secs(30));
-        let _ = self.notify("exit", Value::Null);
+        let id = self.request_no_params("shutdown")?;
+        let resp = self.wait_response(id, Duration::from_secs(30))?;
+        if resp.get("error").is_some() {
+            return Err(LspError::Protocol(format!("shutdown rejected: {resp}")));
+        }
+        self.send(&json!({"jsonrpc": "2.0", "method": "exit"}))?;
         // the server's read loop ends when its stdin closes
         self.stdin = None;
         let t0 = Instant::now();
